@@ -31,6 +31,46 @@ let parse_docs_hex (toks : string list) : doc list option =
     | h :: r -> (match parse_doc_hex h with Some d -> go r (d :: acc) | None -> None) in
   go toks []
 
+(* the flattened view of a sample: one element per metric leaf, keyed by the dot-joined path (array items by their
+   index), with the leaf's own type; None when the sample has a BSON timestamp leaf (two metrics; left to C02) *)
+let dot = n_of_int 46
+let digits (i : int) : n list = List.map (fun c -> n_of_int (Char.code c)) (List.of_seq (String.to_seq (string_of_int i)))
+let rec has_ts (v : value) : bool =
+  match v with
+  | VTimestamp _ -> true
+  | VDoc d -> List.exists (fun (_, x) -> has_ts x) d
+  | VArr l -> List.exists has_ts l
+  | _ -> false
+let rec flat_value (key : n list) (v : value) : doc =
+  match v with
+  | VDoc d -> flat_doc (Some key) d
+  | VArr l -> List.concat (List.mapi (fun i x -> flat_value (key @ [dot] @ digits i) x) l)
+  | VDouble _ | VInt32 _ | VInt64 _ | VBool _ | VDateTime _ -> [(key, v)]
+  | _ -> []
+and flat_doc (prefix : n list option) (d : doc) : doc =
+  List.concat_map (fun (k, v) ->
+      let key = (match prefix with None -> k | Some p -> p @ [dot] @ k) in
+      flat_value key v) d
+(* keys and types come from the reference document (array indices count every item of the reference array, metric
+   or not), values from the chunk's table; bool: anything but 0 is true *)
+let retype (v : value) (x : z) : value =
+  match v with
+  | VDouble _ -> VDouble x | VInt32 _ -> VInt32 x | VInt64 _ -> VInt64 x | VDateTime _ -> VDateTime x
+  | VBool _ -> VBool (x <> Z0)
+  | _ -> v
+let flat_expected_tables (tables : table list) : string option =
+  if List.exists (fun (_, r) -> has_ts (VDoc r)) tables then None
+  else
+    let per_table (t : table) : doc list option =
+      let (samples, r) = t in
+      let leaves = flat_doc None r in
+      let cols = table_columns t in
+      if List.length leaves <> List.length cols then None
+      else Some (List.mapi (fun i _ -> List.map2 (fun (k, v) col -> (k, retype v (List.nth col i))) leaves cols) samples) in
+    let all = List.map per_table tables in
+    if List.exists (fun x -> x = None) all then None
+    else Some (hexdocs (List.concat_map (fun x -> match x with Some l -> l | None -> []) all))
+
 let verdict_name = function
   | COk -> "ok" | CUndecodable -> "not-decodable-by-the-specification" | CHeader -> "header-field-not-exact"
   | CSamples -> "recovered-samples-differ-from-inputs" | CReference -> "reference-sample-not-verbatim"
@@ -189,14 +229,22 @@ let run_dec (path : string) =
          | _ -> disagree "ReadStructuredMetrics" rhs "")
     | ["CF"] ->
         (match split_ws rhs with
-         | n :: _ -> if int_of_string n <> List.length !expected then disagree "Chunk.Iterator(count)" n (string_of_int (List.length !expected))
+         | n :: docs ->
+             if int_of_string n <> List.length !expected then disagree "Chunk.Iterator(count)" n (string_of_int (List.length !expected))
+             else (match flat_expected_tables !tables with
+                 | Some fe -> if String.concat " " docs <> fe then disagree "Chunk.Iterator(flattened documents)" (String.concat " " docs) fe
+                 | None -> ())
          | [] -> ())
     | ["RF"] | ["RM"] | ["RE"] ->
         (match split_ws rhs with
-         | e :: n :: _ ->
+         | e :: n :: docs ->
              let want = if String.trim lhs = "RF" then List.length !expected else List.length !tables in
              if e <> "0" || int_of_string n <> want then
                disagree (String.trim lhs ^ "(err,count)") (e ^ " " ^ n) (Printf.sprintf "0 %d" want)
+             else if String.trim lhs = "RF" then
+               (match flat_expected_tables !tables with
+                | Some fe -> if String.concat " " docs <> fe then disagree "ReadMetrics(flattened documents)" (String.concat " " docs) fe
+                | None -> ())
          | _ -> ())
     | ("CRASH" | "HANG") :: _ -> disagree "reader crashed or hung" line ""
     | _ -> ()
